@@ -1707,7 +1707,10 @@ func (n *LambdaNode) Format(buf *bytes.Buffer, indent string, onNewLine bool) {
 	}
 	writeIndent(buf, indent, onNewLine)
 	buf.WriteString("lambda: ")
-	n.Expression.Format(buf, indent, false)
+	if n.Expression != nil {
+		// a lambda var of a template that has no value yet has no expression
+		n.Expression.Format(buf, indent, false)
+	}
 }
 func (n *LambdaNode) SetComment(c *CommentNode) {
 	n.Comment = c
